@@ -97,6 +97,9 @@ func runShard(p *props.Prop, tier string, shard, nshards int, out string, deadli
 		if h.OnlyTier != "" && h.OnlyTier != tier {
 			continue
 		}
+		t0 := time.Now()
+		defer func(name string) {}(h.Name)
+		timeIt := func() { r.Max("ms:"+h.Name+" (slowest shard)", time.Since(t0).Milliseconds()) }
 		if h.Custom != nil {
 			if shard != 0 && !h.Sharded {
 				continue
@@ -113,6 +116,7 @@ func runShard(p *props.Prop, tier string, shard, nshards int, out string, deadli
 				h.Custom(&props.Ctx{R: r, Shard: shard, NShards: nshards, Workers: runtime.NumCPU(), Stub: !jsonapi.McInstrumented})
 			}()
 			runtime.GOMAXPROCS(1)
+			timeIt()
 			continue
 		}
 		e := &mc.Explorer{Name: h.Name, Body: h.Body, R: r, Shard: shard, NShards: nshards, Reset: h.Reset}
@@ -124,6 +128,7 @@ func runShard(p *props.Prop, tier string, shard, nshards int, out string, deadli
 			exhaustive = false
 		}
 		jsonapi.McInstall(nil)
+		timeIt()
 	}
 	if !exhaustive {
 		r.Cap("shard " + strconv.Itoa(shard) + " incomplete")
